@@ -93,6 +93,9 @@ _Bool env_on; unsigned env_writes;
 void xv_env(void);
 #endif
 
+/* placement-new copy construction of a trivially copyable T into slot idx: all sizeof(T) bytes */
+unsigned ctor_count, ctor_slot;
+#define XV_CONSTRUCT_COPY(self, idx, src_p) do { ctor_count++; ctor_slot = (unsigned)(idx); for (unsigned xv_i = 0; xv_i < XV_W; xv_i++) (self)->_data[idx].b[xv_i] = (src_p)->b[xv_i]; } while (0)
 #include "lowered.h"
 
 /* ---- monitors ---- */
@@ -302,6 +305,19 @@ void h_store_load(void) {
 #if XV_S > 1
   if (gs != tgt) XV_CANARY("store_load.frame");
 #endif
+}
+
+/* =================== SEQ: constructor; load =================== */
+void h_ctor(void) {
+  struct seqlock sl; g_sl = &sl; havoc_shared(); reset_monitors(); init_inputs();
+  sl._seq = (sequence_t)(XV_SEQ_INIT);                       /* default member initialiser of _seq, extracted */
+  T v = nondet_T(); ctor_count = 0; ctor_slot = XV_S;
+  sl_ctor_copy(&sl, &v);
+  OBL("sl.ctor.initial_value", ctor_count == 1 && sl._seq == (sequence_t)(XV_SEQ_INIT) && !(sl._seq & 1) && ctor_slot == (unsigned)((sl._seq >> 1) % XV_S))
+  seq_load_weak = 0;
+  T r = sl_load(&sl);
+  OBL("sl.ctor.initial_value", r.b[in_g] == v.b[in_g] && rd_calls == 1 && rd_slot == ctor_slot)
+  XV_CANARY("ctor.done");
 }
 
 /* =================== SEQ: update =================== */
